@@ -1,10 +1,11 @@
-\* version gate: 1 group, 1 unit class, <=2 records, counts 1..2, endpoints {00,10}; <=2 versions on chain
+\* version gate with batched submissions: 1 group, 1 unit class, <=1 record, counts 1..2, endpoints {00,10};
+\* <=2 versions on chain, <=3 submissions, queued while the chain query is in flight
 SPECIFICATION GSpec
 CONSTANTS
   UnitSeq <- GU1
   GroupNames = {"g1"}
   MaxGroups = 1
-  MaxRecs = 2
+  MaxRecs = 1
   MaxCount = 2
   MCountMin = 1
   EpVals <- GEp
@@ -18,7 +19,7 @@ CONSTANTS
   SliceRes = 0
   Hash <- IdHash
   MaxDecl = 2
-  MaxSubmits = 0
+  MaxSubmits = 3
   StoreRule = "firstValid"
-INVARIANTS NeverAccepts
+INVARIANTS GateSound GateCurrent ReplySound AnnounceSound AnnouncedWasAccepted
 CHECK_DEADLOCK FALSE
